@@ -219,7 +219,12 @@ def rewrite_R3_for_each(text, occurrence=0):
         j -= 1
     recv = text[toks[j].start:toks[i - 1].start]  # `E.iter()`
     ed = Edit(text)
-    ed.replace(toks[j].start, toks[body_open].start, f"for {pvar} in {recv} ")
+    if toks[i - 4].text == "iter_mut":
+        # R3b: mutable iteration as an index loop (Verus has no usable ghost view of slice::IterMut)
+        coll = text[toks[j].start:toks[i - 5].start]
+        ed.replace(toks[j].start, toks[body_open].end, f"let __n = {coll}.len(); for __i in 0..__n {{ let {pvar} = &mut {coll}[__i]; ")
+    else:
+        ed.replace(toks[j].start, toks[body_open].start, f"for {pvar} in {recv} ")
     ed.delete(toks[cl].start, toks[cl + 1].end)
     return ed.apply()
 
@@ -378,7 +383,7 @@ def recv_start(toks, dot):
         return j + 1
 
 
-def rewrite_ANF_chain(text, last_method, occurrence, nstages, proofs):
+def rewrite_ANF_chain(text, last_method, occurrence, nstages, proofs, tag=""):
     """R10: let-bind the last `nstages` method calls of a chain ending in `.last_method(..)` (A-normal form).
     proofs: {stage_index: proof text placed after that stage's let}"""
     toks = tokenize(text)
@@ -430,19 +435,29 @@ def rewrite_ANF_chain(text, last_method, occurrence, nstages, proofs):
         call = text[toks[d].start:toks[c].end]
         # hoist a closure argument into its own let so proofs can name it
         op = call_paren(toks, d + 1)
-        if toks[op + 1].text in ("|", "||") and si != len(stages) - 1:
-            clo = text[toks[op + 1].start:toks[c].start]
-            out += f"let __cl{si} = {clo}; "
-            call = text[toks[d].start:toks[op].end] + f"__cl{si})"
+        # hoist a trailing closure argument into its own let so proofs can name it
+        k = op + 1
+        clo_start = None
+        while k < c:
+            if toks[k].text in ("|", "||") and toks[k - 1].text in ("(", ","):
+                clo_start = k
+                break
+            if toks[k].text in OPEN:
+                k = match_close(toks, k)
+            k += 1
+        if clo_start is not None:
+            clo = text[toks[clo_start].start:toks[c].start]
+            out += f"let __cl{tag}{si} = {clo}; "
+            call = text[toks[d].start:toks[clo_start].start] + f"__cl{tag}{si})"
         if si == len(stages) - 1:
             if flat_at is not None:
                 return (text[:toks[flat_at].start] + out + text[toks[flat_at].start:toks[start].start] + f"{prev}{call}" + text[toks[end].end:])
             out += f"{prev}{call} }}"
         else:
-            out += f"let __c{si} = {prev}{call}; "
+            out += f"let __c{tag}{si} = {prev}{call}; "
             if si in proofs:
-                out += f"/*@B INJ chain{occurrence}#{si}*/ " + proofs[si] + " /*@E*/ "
-            prev = f"__c{si}"
+                out += f"/*@B INJ chain{tag}{occurrence}#{si}*/ " + proofs[si] + " /*@E*/ "
+            prev = f"__c{tag}{si}"
     return text[:toks[start].start] + out + text[toks[end].end:]
 
 
@@ -667,7 +682,7 @@ def apply_rewrites(text, rewrites):
         elif rw[0] == "ROOT":
             text = rewrite_ROOT(text, rw[1], rw[2], rw[3], rw[4] if len(rw) > 4 else True)
         elif rw[0] == "ANF":
-            text = rewrite_ANF_chain(text, rw[1], rw[2], rw[3], rw[4] if len(rw) > 4 else {})
+            text = rewrite_ANF_chain(text, rw[1], rw[2], rw[3], rw[4] if len(rw) > 4 else {}, rw[5] if len(rw) > 5 else "")
         elif rw[0] == "SUB":   # declared literal substitution (must match exactly once) -- reported in evidence
             old, new = rw[1], rw[2]
             if text.count(old) != 1:
